@@ -130,6 +130,21 @@ func genFamily(r *rand.Rand) *family {
 			prev = w
 		}
 	}
+	// shadowing by depth: a method declared at depth 1 hides the method of the same name that
+	// another embedded field promotes from depth 2, whatever the order of the fields
+	for sh := 0; sh < 2; sh++ {
+		deep := &ctype{Pkg: "pa", Kind: "struct", Name: fmt.Sprintf("ShDeep%d", sh)}
+		deep.Methods = []method{{Name: "M0", Sig: 0, Ptr: r.Intn(2) == 0}, {Name: "M1", Sig: 1, Ptr: r.Intn(2) == 0}}
+		mid := &ctype{Pkg: "pa", Kind: "struct", Name: fmt.Sprintf("ShMid%d", sh)}
+		mid.Embeds = []embed{{deep, r.Intn(2) == 0}}
+		near := &ctype{Pkg: "pa", Kind: "struct", Name: fmt.Sprintf("ShNear%d", sh)}
+		near.Methods = []method{{Name: "M0", Sig: 0, Ptr: r.Intn(2) == 0}, {Name: "M1", Sig: 1, Ptr: r.Intn(2) == 0}}
+		ab := &ctype{Pkg: []string{"pa", "pb", "main"}[r.Intn(3)], Kind: "struct", Name: fmt.Sprintf("ShadowAB%d", sh)}
+		ab.Embeds = []embed{{mid, r.Intn(2) == 0}, {near, r.Intn(2) == 0}}
+		ba := &ctype{Pkg: ab.Pkg, Kind: "struct", Name: fmt.Sprintf("ShadowBA%d", sh)}
+		ba.Embeds = []embed{{near, r.Intn(2) == 0}, {mid, r.Intn(2) == 0}}
+		f.Types = append(f.Types, deep, mid, near, ab, ba)
+	}
 	ni := 5 + r.Intn(4)
 	for i := 0; i < ni; i++ {
 		it := &iface{Pkg: []string{"main", "pa"}[r.Intn(2)], Name: fmt.Sprintf("I%d", i)}
